@@ -93,13 +93,16 @@ func filterSpellings(t string) []string {
 	// spaces inside the brackets and parentheses
 	add(strings.Replace(strings.Replace(t, "[?(", "[ ?( ", 1), ")]", " ) ]", 1))
 	// spaces inside every pair of parentheses of the expression
-	if strings.Count(t, "(") > 1 {
-		inner := t[3 : len(t)-2]
+	if strings.Count(strings.ReplaceAll(t, "()", ""), "(") > 1 {
+		// (the `()` of a function call is a token of its own, not a parenthesis pair)
+		protect := func(s string) string { return strings.ReplaceAll(s, "()", "\x00") }
+		restore := func(s string) string { return strings.ReplaceAll(s, "\x00", "()") }
+		inner := protect(t[3 : len(t)-2])
 		inner = strings.ReplaceAll(strings.ReplaceAll(inner, "(", "( "), ")", " )")
-		add("[?(" + inner + ")]")
-		inner2 := t[3 : len(t)-2]
+		add("[?(" + restore(inner) + ")]")
+		inner2 := protect(t[3 : len(t)-2])
 		inner2 = strings.ReplaceAll(strings.ReplaceAll(inner2, "(", "(  "), ")", "  )")
-		add("[?(" + inner2 + ")]")
+		add("[?(" + restore(inner2) + ")]")
 	}
 	// spaces around operators removed
 	x := t
